@@ -193,9 +193,27 @@ func c04(r *Report) {
 				return ok && s.Chan.Type().Underlying().(*types.Chan) != nil
 			}
 			sc := countBefore(c.Fn, isSend)
+			// a send in a deferred closure registered in the entry block happens once on every exit
+			deferred := 0
+			for _, ci := range calls(c.Fn) {
+				d, isD := ci.(*ssa.Defer)
+				if !isD || d.Block() != c.Fn.Blocks[0] {
+					continue
+				}
+				if mc, isMC := d.Call.Value.(*ssa.MakeClosure); isMC {
+					for _, in := range instrs(mc.Fn.(*ssa.Function)) {
+						if _, isS := in.(*ssa.Send); isS {
+							deferred++
+						}
+					}
+				}
+			}
 			ok := true
 			for _, ret := range returns(c.Fn) {
-				if sc[ret] != (cnt{1, 1}) {
+				n := sc[ret]
+				n.Min += deferred
+				n.Max += deferred
+				if n != (cnt{1, 1}) {
 					ok = false
 				}
 			}
@@ -324,7 +342,27 @@ func c04(r *Report) {
 		}
 	})
 
-	r.Guard("C04.R5", "one direction ending can end the other (end-of-stream propagation exists)", func() {
+	r.Guard("C04.R5", "one direction ending can end the other (end-of-stream propagation exists)", func() { tunnelEOSRule(r, hcr, cops) })
+
+	r.Guard("C04.R6", "no unflushed buffer sits between the two sockets", func() {
+		for k, c := range cops {
+			key := fmt.Sprintf("(*M.Proxy).handleConnectRequest: tunnel copier #%d destination", k+1)
+			if c.Dst == nil {
+				r.Undecided(key, "cannot map the copier's destination to an argument")
+				continue
+			}
+			t := unwrapIface(c.Dst).Type().String()
+			buffered := t == "*bufio.Writer" || t == "*bufio.ReadWriter"
+			r.Decide("lookup", key, !buffered, "destination type "+t, "the copy writes into a "+t+" that is not flushed per write: bytes are delivered only when the buffer fills", c.Go.Pos())
+		}
+	})
+}
+
+// tunnelEOSRule: a finished copy direction passes the end of stream on, however
+// the copy ended (shared by C04.R5 and C03.R5).
+func tunnelEOSRule(r *Report, hcr *ssa.Function, cops []tunnelCopier) {
+	w := r.W
+	g := G(hcr)
 		wake := map[string]bool{"(net.Conn).Close": true, "(*net.TCPConn).CloseWrite": true, "(net.Conn).SetReadDeadline": true, "(net.Conn).SetDeadline": true, "(*crypto/tls.Conn).CloseWrite": true}
 		found := false
 		for _, c := range cops {
@@ -355,21 +393,57 @@ func c04(r *Report) {
 				}
 			}
 		}
-		r.Decide("path", "(*M.Proxy).handleConnectRequest: a finished copier wakes the opposite direction", found, "a close / half-close / deadline call follows the end of a copy before the join completes", "nothing between the end of one copy and the join can end the other copy: a half-closed tunnel stalls until the idle deadline", hcr.Pos())
-	})
-
-	r.Guard("C04.R6", "no unflushed buffer sits between the two sockets", func() {
-		for k, c := range cops {
-			key := fmt.Sprintf("(*M.Proxy).handleConnectRequest: tunnel copier #%d destination", k+1)
-			if c.Dst == nil {
-				r.Undecided(key, "cannot map the copier's destination to an argument")
-				continue
+		// and it does so however the copy ended (a read error such as a reset as well as a clean EOF)
+		if found {
+			for _, c := range cops {
+				gf := G(c.Fn)
+				isWake := func(i ssa.Instruction) bool {
+					cc, ok := i.(*ssa.Call)
+					if !ok {
+						return false
+					}
+					if wake[calleeName(cc)] {
+						return true
+					}
+					return cc.Call.IsInvoke() && (cc.Call.Method.Name() == "CloseWrite" || cc.Call.Method.Name() == "Close" || cc.Call.Method.Name() == "SetDeadline" || cc.Call.Method.Name() == "SetReadDeadline")
+				}
+				// an assertion of the destination to an interface that every destination's static
+				// type implements cannot fail: its not-ok edge is infeasible
+				skip := func(b *ssa.BasicBlock, k int) bool {
+					if k != 1 || len(b.Instrs) == 0 {
+						return false
+					}
+					iff, ok := b.Instrs[len(b.Instrs)-1].(*ssa.If)
+					if !ok {
+						return false
+					}
+					ex, ok := iff.Cond.(*ssa.Extract)
+					if !ok || ex.Index != 1 {
+						return false
+					}
+					ta, ok := ex.Tuple.(*ssa.TypeAssert)
+					if !ok {
+						return false
+					}
+					iface, ok := ta.AssertedType.Underlying().(*types.Interface)
+					if !ok {
+						return false
+					}
+					for _, cc := range cops {
+						if cc.Dst == nil || !types.Implements(unwrapIface(cc.Dst).Type(), iface) {
+							return false
+						}
+					}
+					return true
+				}
+				if p := gf.PathToE([]ssa.Instruction{c.Copy}, false, isWake, isReturn, skip); p != nil {
+					found = false
+					r.Note("C04.R5: a path from io.Copy to the copier's return skips the half-close: %v", witness(w, p))
+				}
+				break
 			}
-			t := unwrapIface(c.Dst).Type().String()
-			buffered := t == "*bufio.Writer" || t == "*bufio.ReadWriter"
-			r.Decide("lookup", key, !buffered, "destination type "+t, "the copy writes into a "+t+" that is not flushed per write: bytes are delivered only when the buffer fills", c.Go.Pos())
 		}
-	})
+		r.Decide("path", "(*M.Proxy).handleConnectRequest: a finished copier wakes the opposite direction", found, "a close / half-close / deadline call follows the end of a copy before the join completes", "nothing between the end of one copy and the join can end the other copy: a half-closed tunnel stalls until the idle deadline", hcr.Pos())
 }
 
 func ordinalDyn(f *ssa.Function, c *ssa.Call) int {
